@@ -175,6 +175,12 @@ TWINS = [
     ("hmm-commute-fwd", HMM, r"prev.reshape\(-1, 1\) \+ transition_n,", "transition_n + prev.reshape(-1, 1),"),
     ("hmm-commute-bwd", HMM, r"backward_distribution = forward_filter \+ transition_n\[:, prev_sample\]", "backward_distribution = transition_n[:, prev_sample] + forward_filter"),
     ("hmm-cond-polarity", HMM, r"check = index == 0\n        alpha = jax.lax.cond\(check, init_branch, t_branch, prev, obs\)", "alpha = jax.lax.cond(index != 0, t_branch, init_branch, prev, obs)"),
+    ("vmap-leaves-rename", VMAP, r"\bleaves\b", "arr_leaves"),
+    ("scan-length-flip", SCAN, r"return length if length is not None else jtu.tree_leaves\(xs\)\[0\].shape\[0\]", "return jtu.tree_leaves(xs)[0].shape[0] if length is None else length"),
+    ("switch-same-idx-commute", SW, r"same_idx = new_idx == trace.get_idx\(\)", "same_idx = trace.get_idx() == new_idx"),
+    ("incremental-outwrap-polarity", INC, r"return \[Diff\(v, NoChange\) if not isinstance\(v, Diff\) else v for v in outduals\]", "return [v if isinstance(v, Diff) else Diff(v, NoChange) for v in outduals]"),
+    ("mask-bwd-filter", MASK, r"inner_chm.mask\(pre_check\)", "inner_chm.filter(pre_check)"),
+    ("switch-retdiffs-rename", SW, r"\bretdiffs\b", "branch_retdiffs"),
     ("docstring-edit", SCAN, r"Prepends the initial accumulator value", "Prepends the first accumulator value"),
     ("comment-shift", DIST, r"(class Distribution\(Generic\[R\], GenerativeFunction\[R\]\):)", "# moved comment\n\n\n\\1"),
 ]
